@@ -494,7 +494,7 @@ fn run_case(target: &str, seed: u64, len: usize) -> (String, String) {
             let rate = rates[(seed % 8) as usize];
             let n = len + 4;
             let hzs: Vec<f64> = (0..n).map(|k| match (seed as usize + k) % 7 {
-                0 => rate, 1 => 0.0, 2 => rate * 2.5, 3 => 440.0, 4 => rate / 3.0, 5 => 1.0e-3, _ => (rng.next() % 100000) as f64 / 7.0 }).collect();
+                0 => rate, 1 => 0.0, 2 => rate * 2.5, 3 => 440.0, 4 => rate / 3.0, 5 => if seed % 3 == 0 { rate * 3.0e19 } else { 1.0e-3 }, _ => (rng.next() % 100000) as f64 / 7.0 }).collect();
             let hz0 = hzs[0];
             let var = seed % 2 == 0;
             macro_rules! drive { ($mk:expr, $f:expr) => {{
@@ -534,6 +534,42 @@ fn run_case(target: &str, seed: u64, len: usize) -> (String, String) {
             drive!(|ph: signal::Phase<_>| ph.saw(), |p: f64| 1.0 - 2.0 * p);
             drive!(|ph: signal::Phase<_>| ph.square(), |p: f64| if p < 0.5 { 1.0 } else { -1.0 });
             drive!(|ph: signal::Phase<_>| ph.sine(), |p: f64| (2.0 * std::f64::consts::PI * p).sin());
+        }
+        "Window::new" | "Window::next" | "Windowed::next" => {
+            use dasp_signal::window::{Window, Windower};
+            // a window of n frames samples the phases i/(n-1) (n - 1 a power of two: exact), same value in every channel
+            pub struct Probe;
+            impl dasp_window::Window<f64> for Probe { type Output = f64; fn window(phase: f64) -> f64 { phase + 1.5 } }
+            for &n in &[2usize, 3, 5, 9, 17] {
+                let mut w: Window<[f64; 2], Probe> = Window::new(n);
+                for i in 0..n {
+                    let f = w.next().unwrap();
+                    let p = (i as f64 / (n as f64 - 1.0)) % 1.0;
+                    rec!((f[0], f[1]), (p + 1.5, p + 1.5));
+                }
+            }
+            // hann window of n frames: 0 at both ends, symmetric, 1 in the middle (odd n)
+            for &n in &[3usize, 5, 8, 9] {
+                let v: Vec<[f64; 1]> = dasp_signal::window::hann::<[f64; 1]>(n).take(n).collect();
+                rec!(v[0][0].abs() < 1e-12 && v[n - 1][0].abs() < 1e-12, true);
+                for i in 0..n { rec!((v[i][0] - v[n - 1 - i][0]).abs() < 1e-12, true); }
+                if n % 2 == 1 { rec!((v[n / 2][0] - 1.0).abs() < 1e-12, true); }
+            }
+            // chunk k holds frames k*h..k*h+b-1, each scaled by the window value of ITS position
+            let l = 4 + (seed % 5) as usize;
+            let data: Vec<[f64; 1]> = (0..l).map(|i| [0.25 + i as f64 * 0.125]).collect();
+            for &(bin, hop) in &[(3usize, 1usize), (5, 2), (2, 3), (3, 3)] {
+                let w: Windower<[f64; 1], Probe> = Windower::new(&data[..], bin, hop);
+                let mut k = 0usize;
+                for mut chunk in w {
+                    for j in 0..bin {
+                        let g = (j as f64 / (bin as f64 - 1.0)) % 1.0 + 1.5;
+                        rec!(chunk.next().map(|f| f[0]), Some(data[k * hop + j][0] * g));
+                    }
+                    k += 1;
+                }
+                rec!(k, if l >= bin { (l - bin) / hop + 1 } else { 0 });
+            }
         }
         "Windower::size_hint" | "Windower::next" => {
             use dasp_signal::window::Windower;
@@ -605,7 +641,7 @@ const TARGETS: &[&str] = &[
     "OffsetAmpPerChannel::next", "Map::next", "ZipMap::next", "Inspect::next", "ClipAmp::next", "Delay::next",
     "RefMut::next", "FromIterator::next", "FromInterleavedSamplesIterator::next", "UntilExhausted::next",
     "Take::next", "IntoInterleavedSamples::next_sample", "Buffered::next", "Buffered::next_frames",
-    "BranchRefA::next", "BranchRcA::next", "Converter::next", "MulHz::next", "Linear::interpolate", "Windower::size_hint", "SharedNode::next_frame", "Hz::step",
+    "BranchRefA::next", "BranchRcA::next", "Converter::next", "MulHz::next", "Linear::interpolate", "Windower::size_hint", "SharedNode::next_frame", "Hz::step", "Window::next",
 ];
 
 fn field<'a>(js: &'a str, k: &str) -> &'a str {
